@@ -81,7 +81,7 @@ pub open spec fn sel_delete(op: Operation, tasks: State, cut: int) -> bool {
 pub open spec fn expire_sel(tasks: State, cut: int, ops: Seq<Operation>) -> bool {
     &&& forall|k: int| 0 <= k < ops.len() ==> sel_delete(#[trigger] ops[k], tasks, cut)
     &&& forall|u: Uuid| tasks.dom().contains(u) && expired(tasks[u], cut) ==> exists|k: int| 0 <= k < ops.len() && op_uuid(#[trigger] ops[k]) == Some(u)
-    &&& forall|k1: int, k2: int| 0 <= k1 < k2 < ops.len() ==> op_uuid(#[trigger] ops[k1]) != op_uuid(#[trigger] ops[k2])
+    &&& forall|k1: int, k2: int| 0 <= k1 < k2 < ops.len() ==> #[trigger] ops_differ(ops, k1, k2)
 }
 /// Replica::all_task_data: one TaskData per stored task, holding its uuid and content
 pub open spec fn all_data(m: Map<Uuid, TaskData>, tasks: State) -> bool {
@@ -96,8 +96,9 @@ pub open spec fn data_upto(m: Map<Uuid, TaskData>, lst: Seq<(Uuid, TaskMap)>, n:
 pub open spec fn drained_data(d: Seq<(Uuid, TaskData)>, tasks: State) -> bool {
     &&& forall|j: int| 0 <= j < d.len() ==> tasks.dom().contains((#[trigger] d[j]).0) && d[j].1.uuid == d[j].0 && d[j].1.taskmap@ == tasks[d[j].0]
     &&& forall|u: Uuid| tasks.dom().contains(u) ==> exists|j: int| 0 <= j < d.len() && (#[trigger] d[j]).0 == u
-    &&& forall|i: int, j: int| 0 <= i < j < d.len() ==> (#[trigger] d[i]).0 != (#[trigger] d[j]).0
+    &&& forall|i: int, j: int| 0 <= i < j < d.len() ==> #[trigger] keys_differ(d, i, j)
 }
+pub open spec fn ops_differ(ops: Seq<Operation>, k1: int, k2: int) -> bool { op_uuid(ops[k1]) != op_uuid(ops[k2]) }
 /// loop invariant of expire_tasks after n entries: one accurate Delete per expired entry so far, nothing else
 pub open spec fn eu_sound(tasks: State, cut: int, ops: Seq<Operation>) -> bool {
     forall|k: int| 0 <= k < ops.len() ==> sel_delete(#[trigger] ops[k], tasks, cut)
@@ -109,7 +110,7 @@ pub open spec fn eu_complete(d: Seq<(Uuid, TaskData)>, n: int, tasks: State, cut
     forall|j: int| 0 <= j < n && expired(tasks[(#[trigger] d[j]).0], cut) ==> exists|k: int| 0 <= k < ops.len() && op_uuid(#[trigger] ops[k]) == Some(d[j].0)
 }
 pub open spec fn eu_distinct(ops: Seq<Operation>) -> bool {
-    forall|k1: int, k2: int| 0 <= k1 < k2 < ops.len() ==> op_uuid(#[trigger] ops[k1]) != op_uuid(#[trigger] ops[k2])
+    forall|k1: int, k2: int| 0 <= k1 < k2 < ops.len() ==> #[trigger] ops_differ(ops, k1, k2)
 }
 pub open spec fn expire_upto(d: Seq<(Uuid, TaskData)>, n: int, tasks: State, cut: int, ops: Seq<Operation>) -> bool {
     0 <= n <= d.len() && eu_sound(tasks, cut, ops) && eu_from(d, n, ops) && eu_complete(d, n, tasks, cut, ops) && eu_distinct(ops)
@@ -155,11 +156,11 @@ proof fn lemma_es_distinct(d: Seq<(Uuid, TaskData)>, k: int, tasks: State, ops: 
     ensures eu_distinct(ops.push(op))
 {
     let o2 = ops.push(op);
-    assert forall|k1: int, k2: int| 0 <= k1 < k2 < o2.len() implies op_uuid(#[trigger] o2[k1]) != op_uuid(#[trigger] o2[k2]) by {
+    assert forall|k1: int, k2: int| 0 <= k1 < k2 < o2.len() implies #[trigger] ops_differ(o2, k1, k2) by {
         assert(o2[k1] == ops[k1]);
-        if k2 < ops.len() { assert(o2[k2] == ops[k2]); } else {
+        if k2 < ops.len() { assert(o2[k2] == ops[k2]); assert(ops_differ(ops, k1, k2)); } else {
             let j = choose|j: int| 0 <= j < k && op_uuid(ops[k1]) == Some(d[j].0);
-            assert(d[j].0 != d[k].0);
+            assert(keys_differ(d, j, k));
         }
     }
 }
